@@ -225,7 +225,7 @@ def run(ctx) -> None:
         parallel(ctx, _enum_shard, [(3, a) for a in range(256)])
     ctx.notes["exhaustive_lengths"] = "0..2" if ctx.quick else "0..3"
     shards = ctx.n(8, 16)
-    per = ctx.n(1000, 30000)
+    per = ctx.n(1000, 24000)
     parallel(ctx, _gen_shard, [(per,)] * shards)
 
 
